@@ -120,3 +120,23 @@ func init() {
 			ruleBTWidth(c, true)
 		})
 }
+
+func init() {
+	register("C06",
+		"Decides enumerated preconditions of 'no panic, no runaway allocation' over the reading call graph: every length, count or index decoded from the input (taint from ReadBuf.Varint / binary.ReadVarint, through arithmetic, phis and into module callees) reaches an allocation, slice bound or index only under a dominating non-negativity check (TL-LOW) and upper comparison (TL-BOUND), allocations additionally under a bound tied to the input actually present (TL-UP), and no guard adds to a still-unbounded decoded length (TL-OVF); constant and range-index offsets into strings/slices in the timestamp parser and the decompressors lie within an established minimum length (TL-IDX); the schema's optional object part is dereferenced only under a nil test (NIL-OBJ); no nil decompressor (NIL-IFACE); explicit panics are dead per instantiation and unchecked assertions justified (PANIC-REACH). "+
+			"Not decided: termination of count-controlled loops whose body consumes no input, panics inside third-party decoders, stack depth on deeply nested schemas.",
+		func(c *Ctx) {
+			ruleTL(c)
+			ruleTLIdx(c)
+			ruleNilObj(c)
+			rulePanicReach(c)
+			s := findReadFile(c.P)
+			c.Rule("NIL-IFACE", "no nil interface value can reach the receiver of the decompress call", 1)
+			if s.decompress != nil {
+				rt := readerCompTable(c.P, s)
+				c.Check(!rt.nilSrc, fnKey(s.fn)+"/decompress-receiver", c.P.pos(s.decompress.Pos()), "every value flowing into the receiver of decompress is non-nil", "a nil interface flows into the receiver of decompress")
+			}
+			c.Assume = append(c.Assume, "int is 64 bits: int(v) of a decoded int64 preserves the value")
+			c.Note("not decided: termination (a huge count with zero-width items loops for a long time), panics inside compress/flate, snappy, json; recursion depth")
+		})
+}
